@@ -569,3 +569,68 @@ func SortedKeys(m map[string]bool) []string {
 	sort.Strings(ks)
 	return ks
 }
+
+// ConcreteResult: outcome of one concrete engine run (translator validation).
+type ConcreteResult struct {
+	Status string
+	Msg    string
+	Obs    []string
+	Fails  []string
+	Known  []string
+}
+
+// RunConcrete executes the harness in the engine on a concrete replay vector.
+func RunConcrete(p *Program, pkg, fn string, params map[string]int, vec []uint64, loopCap, stepCap int) (*ConcreteResult, error) {
+	entry := p.FindFunc(pkg, fn)
+	if entry == nil {
+		return nil, fmt.Errorf("harness %s.%s not found", pkg, fn)
+	}
+	w, err := concreteWorker(p, loopCap, stepCap)
+	if err != nil {
+		return nil, err
+	}
+	w.Params = params
+	w.Opt.Concrete = vec
+	res := w.runPath(entry, nil, 0, false)
+	cr := &ConcreteResult{Status: res.Status, Msg: res.Msg + " " + res.Pos}
+	if cr.Status == "ASSUME" || cr.Status == "ASSERTFAIL" || cr.Status == "OK" || cr.Status == "PANIC" {
+		// same vocabulary as the native runner
+	}
+	for _, o := range res.Observed {
+		cr.Obs = append(cr.Obs, o.Name+"="+o.Val)
+	}
+	for _, f := range res.Fails {
+		switch f.Kind {
+		case "KNOWN":
+			cr.Known = append(cr.Known, f.ID)
+		case "PANIC":
+			cr.Fails = append(cr.Fails, "no-panic")
+		case "OOB":
+			cr.Fails = append(cr.Fails, "no-oob")
+		default:
+			cr.Fails = append(cr.Fails, f.ID)
+		}
+	}
+	return cr, nil
+}
+
+var concWorkers = map[*Program]*Worker{}
+
+func concreteWorker(p *Program, loopCap, stepCap int) (*Worker, error) {
+	if w, ok := concWorkers[p]; ok {
+		w.Opt.LoopCap, w.Opt.StepCap = loopCap, stepCap
+		if loopCap == 0 {
+			w.Opt.LoopCap = 200
+		}
+		if stepCap == 0 {
+			w.Opt.StepCap = 2_000_000
+		}
+		return w, nil
+	}
+	w, err := NewWorker(p, Options{IsConcrete: true, LoopCap: loopCap, StepCap: stepCap})
+	if err != nil {
+		return nil, err
+	}
+	concWorkers[p] = w
+	return w, nil
+}
